@@ -160,7 +160,8 @@ MODELS = {
     "C02": STACK[:2] + [STACK[4]],
     "C03": COLL + [STACK[0], STACK[5]] + [ARENA[0], ARENA[4]],
     "C04": FREELIST + COLL[:2],
-    "C05": ARENA,
+    "C05": ARENA + [M("VirtualBlocks", "MCVirtual_ok.cfg"), M("VirtualBlocks", "MCVirtual_cursor.cfg", "witness"),
+                    M("VirtualBlocks", "MCVirtual_decommit.cfg", "witness"), M("VirtualBlocks", "MCVirtual_full.cfg", "witness")],
     "C06": STACK,
     "C07": ITER,
     "C12": MOVE,
